@@ -4,6 +4,7 @@
 // parts (first argument t of every op: 0 = float, 1 = double; floating values travel as the bit pattern of a double):
 //   finv    M t n <n*n bits>                      Matrix3_/Matrix4_ inverse() and det() residuals
 //   fsolve  A t rows cols <bits> / b cols <bits>  Matrix_ solve / inverse / least squares residuals
+//   fscale  A t rows cols <bits> / b cols <bits> / k ka kb   the same systems with A scaled by 2^ka and b by 2^kb (whole exponent range)
 //   quat    q t a b c d                           integer 4-vector, normalised by the harness: q -> M -> q, M -> axis-angle -> M
 //   axang   aa t ax ay az num den e               axis (integers), angle = pi*num/den + eps[e]: rotate() vs Rodrigues, round trips
 //   euler   e t ord fixed n0 d0 e0 n1 d1 e1 n2 d2 e2   three angles, one of the 12 axis orders, moving or fixed axes
@@ -232,21 +233,35 @@ static void run_finv(const vf::Op& o, const vf::Case& c)
 
 // ------------------------------------------------------------------------------------------------ fsolve
 
+// Result of checking one system with the library: whether it was inside the domain, the library's solution and, per column,
+// a bound on |x - x*| (x* the exact solution) that follows from the residual bound that was just verified.
+struct SysResult {
+	bool in_domain = false;
+	LM x;                   // library solution (as long double)
+	std::vector<ld> fwd;    // per column: |A^-1|_F * residual tolerance  >=  |x_j - x*_j|
+	ld amax = 0, lowpiv = 0; // largest |element| of the matrix actually eliminated; lower bound of its pivots
+};
+
+// A, b hold exactly the T values handed to the library (possibly subnormal).  Square systems: solve + Matrix_::inverse;
+// rows > cols: least squares through the normal equations.
+//
+// Tolerances.  With eps the machine epsilon and eta the smallest subnormal of T, every operation of the elimination has an
+// error <= eps |result| + eta/2 (gradual underflow), so the backward error is c n (eps |A| + n eta) on A and c n eta on b:
+//     |A x - b|  <=  64 kappa ( eps |A|_F |x|  +  n eta (1 + |x|) )            per column,
+// which is the bound used so far plus a term that is negligible (< 1e-280 resp. < 1e-30 relative) unless the elements of A
+// or b are near the bottom of the exponent range.  Domain in addition to kappa <= kappa_max: every pivot keeps >= 8
+// significant bits (in exact arithmetic every pivot of partial pivoting is >= |A|_F / (sqrt(n) kappa_F), because the inverse of a
+// Schur complement is a submatrix of A^-1), and nothing that the exact computation produces leaves the finite range
+// (elements, solution, |b| kappa n each <= max/2^16; a non-zero solution column is not itself subnormal).
 template <class T>
-static void run_fsolve(const vf::Op& oa, const vf::Op* ob, const vf::Case& c)
+static SysResult check_system(const LM& A, const LM& b, const vf::Case& c, const char* tag, bool count)
 {
-	auto mod = [](long long v, int m) { return (int)(((v % m) + m) % m); };
-	int rows = 1 + mod(oa.i(1) - 1, 16), cols = 1 + mod(oa.i(2) - 1, 12);
-	if (cols > rows)
-		cols = rows;
-	int nb = ob ? 1 + mod(ob->i(0) - 1, 4) : 1;
-	LM A(rows, cols), b(rows, nb);
-	for (int i = 0; i < rows * cols; i++)
-		A.a[i] = (ld)(T)of_bits(oa.i(3 + i));
-	for (int i = 0; i < rows * nb; i++)
-		b.a[i] = ob ? (ld)(T)of_bits(ob->i(1 + i)) : (ld)1;
+	SysResult R;
+	int rows = A.r, cols = A.c, nb = b.c;
 	if (!finite(A) || !finite(b))
-		return;
+		return R;
+	const ld eps = Tol<T>::eps(), eta = std::numeric_limits<T>::denorm_min(), big = std::ldexp((ld)std::numeric_limits<T>::max(), -16),
+	         tiny = std::ldexp((ld)std::numeric_limits<T>::min(), 10);
 	asl::Matrix_<T> LA(rows, cols), Lb(rows, nb);
 	for (int i = 0; i < rows; i++) {
 		for (int j = 0; j < cols; j++)
@@ -254,77 +269,238 @@ static void run_fsolve(const vf::Op& oa, const vf::Op* ob, const vf::Case& c)
 		for (int j = 0; j < nb; j++)
 			Lb(i, j) = (T)b(i, j);
 	}
-	ld eps = Tol<T>::eps(), fa = ref::frob(A);
+	ld fa = ref::frob(A);
+	auto outside = [&](const char* why) {
+		if (count) {
+			cls(std::string(tag) + ".outside-domain(skipped)");
+			cls(std::string(tag) + ".outside-domain: " + why);
+			if (g_collect)
+				vf::stats().discarded++;
+		}
+		return R;
+	};
 	if (rows == cols) {
 		int n = rows;
 		LM Ai;
-		if (!ref::inverse(A, Ai) || !(fa * ref::frob(Ai) <= Tol<T>::kappa_max())) {
-			cls("fsolve.outside-domain(skipped)");
-			if (g_collect)
-				vf::stats().discarded++;
-			return;
+		if (!ref::inverse(A, Ai) || !(fa * ref::frob(Ai) <= Tol<T>::kappa_max()))
+			return outside("condition number");
+		ld kappa = fa * ref::frob(Ai);
+		LM xl = Ai * b;
+		R.amax = ref::maxabs(A);
+		R.lowpiv = fa / (std::sqrt((ld)n) * kappa);
+		if (!(R.lowpiv >= 256 * eta))
+			return outside("a pivot may have fewer than 8 significant bits");
+		if (!(R.amax <= big) || !(ref::maxabs(b) * kappa * n <= big) || !(ref::maxabs(xl) <= big) || !(ref::maxabs(xl) * R.amax * n <= big))
+			return outside("exact intermediate results near overflow");
+		for (int j = 0; j < nb; j++) {
+			ld m = 0;
+			for (int i = 0; i < n; i++)
+				m = std::max(m, std::fabs(xl(i, j)));
+			if (m != 0 && m < tiny)
+				return outside("solution near underflow");
 		}
-		ld kappa = fa * ref::frob(Ai), tol = 64 * eps * kappa;
 		asl::Matrix_<T> x = asl::solve(LA, Lb);
 		VF_CHECK(x.rows() == n && x.cols() == nb, "solve(A,b) has shape ", x.rows(), "x", x.cols());
+		R.x = LM(n, nb);
+		ld fai = ref::frob(Ai);
 		for (int j = 0; j < nb; j++) {
 			LM xj(n, 1), bj(n, 1);
 			for (int i = 0; i < n; i++) {
-				xj(i, 0) = x(i, j);
+				R.x(i, j) = xj(i, 0) = x(i, j);
 				bj(i, 0) = b(i, j);
 			}
-			ld res = ref::frob(A * xj - bj), scale = fa * ref::frob(xj);
-			VF_CHECK(res <= tol * scale, "solve<", Tol<T>::name(), ">: |A x - b| / (|A| |x|) = ", (double)(res / scale), " > 64 eps kappa = ", (double)tol, " (kappa ",
-			         (double)kappa, ", n=", n, ") for A=", show(A), " b=", show(bj));
-			worst(W_FSOLVE, res, tol * scale);
+			ld nx = ref::frob(xj), res = ref::frob(A * xj - bj), tol = 64 * kappa * (eps * fa * nx + n * eta * (1 + nx));
+			VF_CHECK(res <= tol, "solve<", Tol<T>::name(), ">: |A x - b| = ", (double)res, " > 64 kappa (eps |A| |x| + n eta (1+|x|)) = ", (double)tol, "; relative to |A||x|: ",
+			         (double)(res / (fa * nx)), " (kappa ", (double)kappa, ", n=", n, ", largest |element| ", (double)R.amax, ") for A=", show(A), " b=", show(bj), " x=", show(xj));
+			worst(W_FSOLVE, res, tol);
+			R.fwd.push_back(fai * tol);
 		}
-		asl::Matrix_<T> Xl = LA.inverse();
-		VF_CHECK(Xl.rows() == n && Xl.cols() == n, "Matrix_::inverse() has shape ", Xl.rows(), "x", Xl.cols());
-		LM X(n, n);
-		for (int i = 0; i < n; i++)
-			for (int j = 0; j < n; j++)
-				X(i, j) = Xl(i, j);
-		ld r1 = ref::frob(A * X - LM::identity(n));
-		VF_CHECK(r1 <= tol, "Matrix_<", Tol<T>::name(), ">: |A inverse(A) - I|_F = ", (double)r1, " > 64 eps kappa = ", (double)tol, " (kappa ", (double)kappa, ", n=", n,
-		         ") for A=", show(A));
-		worst(W_FSOLVE, r1, tol);
-		bool zd = false;
-		for (int i = 0; i < n; i++)
-			if (A(i, i) == 0)
-				zd = true;
-		cls(std::string("fsolve.") + Tol<T>::name() + (n < 4 ? ".n<4" : n < 8 ? ".n<8" : ".n<=12"));
-		if (zd)
-			cls("fsolve.zero-on-diagonal");
-		if (n >= 2)
-			nontrivial(c);
+		// Matrix_::inverse() where the inverse is representable
+		if (ref::maxabs(Ai) <= big && ref::maxabs(Ai) * R.amax * n <= big) {
+			asl::Matrix_<T> Xl = LA.inverse();
+			VF_CHECK(Xl.rows() == n && Xl.cols() == n, "Matrix_::inverse() has shape ", Xl.rows(), "x", Xl.cols());
+			LM X(n, n);
+			for (int i = 0; i < n; i++)
+				for (int j = 0; j < n; j++)
+					X(i, j) = Xl(i, j);
+			ld r1 = ref::frob(A * X - LM::identity(n)), tol = 64 * kappa * (eps + n * eta * (std::sqrt((ld)n) + ref::frob(X)));
+			VF_CHECK(r1 <= tol, "Matrix_<", Tol<T>::name(), ">: |A inverse(A) - I|_F = ", (double)r1, " > 64 kappa (eps + n eta (sqrt n + |X|)) = ", (double)tol, " (kappa ",
+			         (double)kappa, ", n=", n, ", largest |element| ", (double)R.amax, ") for A=", show(A));
+			worst(W_FSOLVE, r1, tol);
+		}
+		R.in_domain = true;
+		if (count) {
+			bool zd = false;
+			for (int i = 0; i < n; i++)
+				if (A(i, i) == 0)
+					zd = true;
+			cls(std::string(tag) + "." + Tol<T>::name() + (n < 4 ? ".n<4" : n < 8 ? ".n<8" : ".n<=12"));
+			if (zd)
+				cls(std::string(tag) + ".zero-on-diagonal");
+		}
 	}
 	else {
 		// least squares through the normal equations G x = A^T b, G = A^T A; domain: kappa_F(G) <= kappa_max
-		LM At = A.t(), G = At * A, h = At * b, Gi;
+		LM At = A.t(), G = At * A, Gi;
 		ld fg = ref::frob(G);
-		if (!ref::inverse(G, Gi) || !(fg * ref::frob(Gi) <= Tol<T>::kappa_max())) {
-			cls("lsq.outside-domain(skipped)");
-			if (g_collect)
-				vf::stats().discarded++;
-			return;
+		if (!ref::inverse(G, Gi) || !(fg * ref::frob(Gi) <= Tol<T>::kappa_max()))
+			return outside("condition number");
+		ld kappa = fg * ref::frob(Gi);
+		LM xl = Gi * (At * b);
+		R.amax = ref::maxabs(G);
+		R.lowpiv = fg / (std::sqrt((ld)cols) * kappa);
+		if (!(R.lowpiv >= 256 * eta))
+			return outside("a pivot may have fewer than 8 significant bits");
+		ld bmax = ref::maxabs(b), am = ref::maxabs(A);
+		if (!(R.amax * rows <= big) || !(am * bmax * rows * kappa * cols <= big) || !(ref::maxabs(xl) <= big) || !(ref::maxabs(xl) * R.amax * cols <= big) || !(am <= big) ||
+		    !(bmax <= big))
+			return outside("exact intermediate results near overflow");
+		for (int j = 0; j < nb; j++) {
+			ld m = 0;
+			for (int i = 0; i < cols; i++)
+				m = std::max(m, std::fabs(xl(i, j)));
+			if (m != 0 && m < tiny)
+				return outside("solution near underflow");
 		}
-		ld kappa = fg * ref::frob(Gi), tol = 64 * eps * kappa;
 		asl::Matrix_<T> x = asl::solve(LA, Lb);
 		VF_CHECK(x.rows() == cols && x.cols() == nb, "least-squares solve(A,b) has shape ", x.rows(), "x", x.cols());
+		R.x = LM(cols, nb);
+		ld fgi = ref::frob(Gi);
 		for (int j = 0; j < nb; j++) {
 			LM xj(cols, 1), bj(rows, 1);
 			for (int i = 0; i < cols; i++)
-				xj(i, 0) = x(i, j);
+				R.x(i, j) = xj(i, 0) = x(i, j);
 			for (int i = 0; i < rows; i++)
 				bj(i, 0) = b(i, j);
-			// forming G and A^T b in T costs rows*eps*(|A|^2 |x| + |A| |b|); solving G x = h backward-stably costs n*eps*|G||x|
-			ld res = ref::frob(At * (A * xj - bj)), scale = fa * fa * ref::frob(xj) + fa * ref::frob(bj);
-			VF_CHECK(res <= tol * scale, "least squares<", Tol<T>::name(), ">: |A^T(Ax-b)| / (|A|^2|x| + |A||b|) = ", (double)(res / scale), " > 64 eps kappa(A^T A) = ",
-			         (double)tol, " (kappa ", (double)kappa, ") for the ", rows, "x", cols, " A=", show(A), " b=", show(bj));
-			worst(W_LSQ, res, tol * scale);
+			// forming G and A^T b in T costs rows (eps (|A|^2 |x| + |A| |b|) + eta (1 + |x|)); solving G x = h backward-stably costs
+			// n (eps |G| + n eta) |x| + n eta
+			ld nx = ref::frob(xj), res = ref::frob(At * (A * xj - bj));
+			ld tol = 64 * kappa * (eps * (fa * fa * nx + fa * ref::frob(bj)) + (rows + cols) * eta * (1 + nx));
+			VF_CHECK(res <= tol, "least squares<", Tol<T>::name(), ">: |A^T(Ax-b)| = ", (double)res, " > 64 kappa(A^T A) (eps (|A|^2|x| + |A||b|) + (m+n) eta (1+|x|)) = ", (double)tol,
+			         " (kappa ", (double)kappa, ", largest |element| of A^T A ", (double)R.amax, ") for the ", rows, "x", cols, " A=", show(A), " b=", show(bj), " x=", show(xj));
+			worst(W_LSQ, res, tol);
+			R.fwd.push_back(fgi * tol);
 		}
-		cls(std::string("lsq.") + Tol<T>::name());
+		R.in_domain = true;
+		if (count)
+			cls(std::string(tag == std::string("fsolve") ? "lsq." : "fscale.lsq.") + Tol<T>::name());
+	}
+	return R;
+}
+
+template <class T>
+static bool read_system(const vf::Op& oa, const vf::Op* ob, LM& A, LM& b)
+{
+	auto mod = [](long long v, int m) { return (int)(((v % m) + m) % m); };
+	int rows = 1 + mod(oa.i(1) - 1, 16), cols = 1 + mod(oa.i(2) - 1, 12);
+	if (cols > rows)
+		cols = rows;
+	int nb = ob ? 1 + mod(ob->i(0) - 1, 4) : 1;
+	A = LM(rows, cols);
+	b = LM(rows, nb);
+	for (int i = 0; i < rows * cols; i++)
+		A.a[i] = (ld)(T)of_bits(oa.i(3 + i));
+	for (int i = 0; i < rows * nb; i++)
+		b.a[i] = ob ? (ld)(T)of_bits(ob->i(1 + i)) : (ld)1;
+	return finite(A) && finite(b);
+}
+
+template <class T>
+static void run_fsolve(const vf::Op& oa, const vf::Op* ob, const vf::Case& c)
+{
+	LM A, b;
+	if (!read_system<T>(oa, ob, A, b))
+		return;
+	SysResult r = check_system<T>(A, b, c, "fsolve", true);
+	if (r.in_domain && (A.r > 1 || A.r != A.c))
 		nontrivial(c);
+}
+
+// Scaling relation: for s = 2^ka, t = 2^kb (exact in T unless a result is subnormal, and then the rounded T values are what
+// both the library and the reference see) the systems (sA) x = (tb) and (sA) x = b are as well conditioned as A x = b; the
+// library must solve them within the same bound, and the solutions must agree with (t/s) x resp. x/s up to the sum of the
+// two forward bounds.  ka, kb range over the whole exponent range of T, including subnormal elements of sA.
+template <class T>
+static void run_fscale(const vf::Op& oa, const vf::Op* ob, const vf::Op* ok, const vf::Case& c)
+{
+	LM A, b;
+	if (!read_system<T>(oa, ob, A, b))
+		return;
+	SysResult r0 = check_system<T>(A, b, c, "fscale.unscaled", false);
+	if (!r0.in_domain) {
+		cls("fscale.unscaled-system-outside-domain(skipped)");
+		if (g_collect)
+			vf::stats().discarded++;
+		return;
+	}
+	long long lim = sizeof(T) == 4 ? 300 : 2200;
+	long long ka = ok ? ok->i(0) : 0, kb = ok ? ok->i(1) : 0;
+	ka = std::max(-lim, std::min(lim, ka));
+	kb = std::max(-lim, std::min(lim, kb));
+	auto scaledT = [](const LM& M, long long k) {
+		LM S = M;
+		for (auto& v : S.a)
+		{
+			ld w = std::ldexp(v, (int)k);
+			v = std::fabs(w) > (ld)std::numeric_limits<T>::max() ? std::numeric_limits<ld>::infinity() : (ld)(T)w; // rounds when subnormal in T
+		}
+		return S;
+	};
+	LM sA = scaledT(A, ka);
+	const ld minn = std::numeric_limits<T>::min(), rmax = 1 / (ld)std::numeric_limits<T>::max();
+	int variants = 0;
+	for (int v = 0; v < 2; v++) {
+		long long kbv = v == 0 ? kb : 0;
+		if (v == 1 && kb == 0)
+			break;
+		LM sb = scaledT(b, kbv);
+		SysResult r = check_system<T>(sA, sb, c, "fscale", true);
+		if (!r.in_domain)
+			continue;
+		variants++;
+		// agreement with the unscaled solution scaled back: x_s = 2^(kbv-ka) x up to both forward bounds.  When sb was rounded
+		// (subnormal) the right-hand sides differ by <= eta/2 per element: |A^-1| sqrt(rows) eta / 2 more.
+		ld f = std::ldexp((ld)1, (int)(kbv - ka));
+		ld binexact = 0;
+		for (size_t i = 0; i < sb.a.size(); i++)
+			binexact = std::max(binexact, std::fabs(sb.a[i] - std::ldexp(b.a[i], (int)kbv)));
+		ld ainexact = 0;
+		for (size_t i = 0; i < sA.a.size(); i++)
+			ainexact = std::max(ainexact, std::fabs(sA.a[i] - std::ldexp(A.a[i], (int)ka)));
+		if (ainexact == 0 && binexact == 0) {
+			for (int j = 0; j < r.x.c; j++) {
+				ld d = 0, nx = 0;
+				for (int i = 0; i < r.x.r; i++) {
+					ld e = r.x(i, j) - f * r0.x(i, j);
+					d += e * e;
+					nx += r.x(i, j) * r.x(i, j);
+				}
+				d = std::sqrt(d);
+				ld tol = r.fwd[j] + f * r0.fwd[j];
+				VF_CHECK(d <= tol, "solve(2^", ka, " A, 2^", kbv, " b) differs from 2^", kbv - ka, " solve(A, b) by ", (double)d, " > ", (double)tol, " (|x| = ", (double)std::sqrt(nx),
+				         ") for ", Tol<T>::name(), " A=", show(A), " b=", show(b));
+			}
+			cls("fscale.agreement-with-unscaled-solution");
+		}
+		if (g_collect) {
+			ld am = ref::maxabs(sA);
+			const char* range = am < minn ? ".A-subnormal" : am < minn * 1e6L ? ".A-near-min-normal" : am > (ld)std::numeric_limits<T>::max() * 1e-12L ? ".A-near-max" : ".A-mid-range";
+			cls(std::string("fscale.") + Tol<T>::name() + range);
+			if (r.lowpiv < rmax)
+				cls("fscale.pivot-bound-below-1/max (a reciprocal of the pivot would overflow)");
+			if (v == 1)
+				cls("fscale.only-A-scaled");
+		}
+	}
+	if (variants) {
+		ld am = ref::maxabs(sA);
+		if (am < minn * 1e6L || am > (ld)std::numeric_limits<T>::max() * 1e-12L)
+			nontrivial(c);
+	}
+	else {
+		cls("fscale.scaled-system-outside-domain(skipped)");
+		if (g_collect)
+			vf::stats().discarded++;
 	}
 }
 
@@ -757,6 +933,13 @@ void vf_run_case(const std::string& part, const vf::Case& c)
 		dbl ? run_finv<double>(o, c) : run_finv<float>(o, c);
 	else if (part == "fsolve" && o.name == "A")
 		dbl ? run_fsolve<double>(o, ob, c) : run_fsolve<float>(o, ob, c);
+	else if (part == "fscale" && o.name == "A") {
+		const vf::Op* ok = 0;
+		for (auto& q : c.ops)
+			if (q.name == "k" && !ok)
+				ok = &q;
+		dbl ? run_fscale<double>(o, ob, ok, c) : run_fscale<float>(o, ob, ok, c);
+	}
 	else if (part == "quat" && o.name == "q")
 		dbl ? run_quat<double>(o, c) : run_quat<float>(o, c);
 	else if (part == "axang" && o.name == "aa")
@@ -958,6 +1141,32 @@ static vf::Case gen_fsolve_case(bool dbl, int n, int extra, int nb, int kind, ui
 	return c;
 }
 
+// a system from gen_fsolve_case plus exponents: A is scaled by 2^ka, b by 2^kb.  ka puts the largest element of the scaled
+// matrix (of A^T A for least squares) near the bottom of the exponent range (subnormal elements included), near the top, or
+// anywhere in between.
+static vf::Case gen_fscale_case(bool dbl, int n, int extra, int nb, int kind, int zone, int bmode, uint64_t seed)
+{
+	vf::Case c = gen_fsolve_case(dbl, n, extra, nb, kind, seed);
+	SplitMix g(seed ^ 0x5ca1e5ca1e5ca1e5ULL);
+	ld amax = 0;
+	for (size_t i = 3; i < c.ops[0].a.size(); i++)
+		amax = std::max(amax, (ld)std::fabs(of_bits(c.ops[0].a[i])));
+	int ea = amax > 0 ? std::ilogb(amax) : 0;
+	int sub = dbl ? -1074 : -149, emin = dbl ? -1022 : -126, emax = dbl ? 1024 : 128;
+	int lo = sub + 10, e;
+	if (zone == 0)
+		e = lo + (int)g.below(emin + 10 - lo); // subnormal .. just above the smallest normal
+	else if (zone == 1)
+		e = emax - 60 + (int)g.below(44); // up to 2^-17 of the largest finite value
+	else
+		e = lo + (int)g.below(emax - 17 - lo);
+	// least squares eliminates A^T A, whose elements carry the square of the scale
+	long long ka = extra ? (e - 2 * ea - 3) / 2 : e - ea;
+	long long kb = bmode == 0 ? ka : bmode == 1 ? 0 : ka + (long long)g.below(61) - 30;
+	c.add(vf::Op("k", {ka, kb}));
+	return c;
+}
+
 static vf::Case quat_case(bool dbl, long long a, long long b, long long c, long long d)
 {
 	vf::Case cs;
@@ -1135,6 +1344,25 @@ void vf_search(const vf::Args& a)
 			return;
 		sweep(a, "fsolve", a.n(0, 25000), [](SplitMix& r) {
 			return gen_fsolve_case(r.below(2), 1 + (int)r.below(12), 1 + (int)r.below(4), 1 + (int)r.below(3), (int)r.below(4), r.next());
+		});
+	}();
+	[&]() {
+		// scaling relation over the whole exponent range: square systems (3 of 4) and least squares
+		auto g = gen::map(gen::tuple(boolean, gen::weightedOneOf<int>({{1, vf::irange<int>(1, 3)}, {3, vf::irange<int>(2, 12)}, {1, gen::just(12)}}), vf::irange<int>(0, 3),
+		                             vf::irange<int>(1, 3), vf::irange<int>(0, 4), gen::tuple(gen::weightedOneOf<int>({{2, gen::just(0)}, {1, gen::just(1)}, {2, gen::just(2)}}),
+		                                                                                     gen::weightedOneOf<int>({{3, gen::just(0)}, {1, gen::just(1)}, {1, gen::just(2)}})),
+		                             seed64),
+		                  [](const std::tuple<int, int, int, int, int, std::tuple<int, int>, uint64_t>& t) {
+			                  int extra = std::get<2>(t) == 3 ? 1 + (int)(std::get<6>(t) % 4) : 0;
+			                  return gen_fscale_case(std::get<0>(t), std::get<1>(t), extra, std::get<3>(t), std::get<4>(t), std::get<0>(std::get<5>(t)), std::get<1>(std::get<5>(t)),
+			                                         std::get<6>(t));
+		                  });
+		if (!vf::check_cases("fscale", a.n(4000, 12000), 100, g))
+			return;
+		sweep(a, "fscale", a.n(0, 40000), [](SplitMix& r) {
+			int w = (int)r.below(5), n = w == 0 ? 1 + (int)r.below(3) : w == 4 ? 12 : 2 + (int)r.below(11);
+			int extra = r.below(4) == 3 ? 1 + (int)r.below(4) : 0, z = (int)r.below(5), bm = (int)r.below(5);
+			return gen_fscale_case(r.below(2), n, extra, 1 + (int)r.below(3), (int)r.below(5), z < 2 ? 0 : z == 2 ? 1 : 2, bm < 3 ? 0 : bm == 3 ? 1 : 2, r.next());
 		});
 	}();
 	[&]() {
